@@ -152,6 +152,27 @@ class Refused(Exception):
     pass
 
 
+def _with_gc_at_every_line(fn, args):
+    """Most aggressive GC schedule: a full collection at every function entry and exit inside
+    geoh5py while `fn` runs (the default schedule - no collection at all except where the
+    library asks for one - is the other extreme; explicit `gc` operations sit in between)."""
+    import sys
+
+    def tracer(frame, event, arg):
+        if "geoh5py" not in frame.f_code.co_filename:
+            return None
+        if event in ("call", "return"):
+            gc.collect()
+        return tracer
+
+    old = sys.gettrace()
+    sys.settrace(tracer)
+    try:
+        return fn(*args)
+    finally:
+        sys.settrace(old)
+
+
 class TreeExec:
     """Applies a history to the real library and to the model."""
 
@@ -174,6 +195,7 @@ class TreeExec:
         self.hold = self.cfg["policy"] == "hold"
         self.unexpected: list = []  # library refusals of operations the model considers valid
         self.all_ops: list = []
+        self.gc_armed = False  # set for the LAST operation of a history only (cost)
 
     # -- resolution -----------------------------------------------------------
     def wsof(self, handle):
@@ -211,7 +233,10 @@ class TreeExec:
         fn = getattr(self, "op_" + name)
         pre = self.model.clone()
         try:
-            res = fn(*op[1:])
+            if self.cfg.get("gc") == "every-call" and self.gc_armed and name not in ("gc", "stats"):
+                res = _with_gc_at_every_line(fn, op[1:])
+            else:
+                res = fn(*op[1:])
             res = "ok" if res is None else res
         except Refused as err:
             self.model = pre
